@@ -64,6 +64,8 @@ struct Property {
   void (*judge)(const sim::Json& scenario, const RunRecord& rec, sim::RunResult& r);
   // optional custom runner (e.g. C04 runs two driver instances); null = run_driver + judge
   sim::RunResult (*run)(const sim::Json& scenario);
+  // optional: a fault-free scenario obtainable without running the driver (for properties whose generator runs it)
+  sim::Json (*baseline)() = nullptr;
 };
 void register_property(const Property& p);
 const Property* find_property(const std::string& id);
